@@ -322,6 +322,28 @@ static void play_history(xmp_context c, int budget_frames)
 		}
 		sink += 0x9e3779b97f4a7c15ULL;
 	}
+	/* track geometry: several loaders (AMF, MDL, Megatracker...) share tracks between patterns of
+	 * different lengths, so a track may hold fewer rows than the pattern that uses it.  Put a few
+	 * tracks into exactly sized shorter blocks: a read beyond a track's rows hits the redzone. */
+	if (vrng_chance(20)) {
+		int k, n = vrng_range(1, 6);
+		xmp_get_module_info(c, &mi);
+		for (k = 0; k < n && mi.mod->trk > 0; k++) {
+			int ti = vrng_below(mi.mod->trk);
+			struct xmp_track *t = mi.mod->xxt[ti], *nt;
+			int nr;
+			if (t == NULL || t->rows <= 1)
+				continue;
+			nr = vrng_range(1, t->rows - 1);
+			nt = (struct xmp_track *)malloc(sizeof(struct xmp_track) + sizeof(struct xmp_event) * (nr - 1));
+			if (nt == NULL)
+				continue;
+			memcpy(nt, t, sizeof(struct xmp_track) + sizeof(struct xmp_event) * (nr - 1));
+			nt->rows = nr;
+			free(t);
+			mi.mod->xxt[ti] = nt;
+		}
+	}
 	if (xmp_start_player(c, rate, fmt) < 0)
 		return;
 	xmp_get_module_info(c, &mi);
